@@ -678,7 +678,14 @@ pub mod harness {
                             } else if !vrt::steps_monotone(&ex.log) {
                                 msg = Some("an event of an earlier step was observed after an event of a later step (step barrier broken)".into());
                             } else if let Some(k) = panic_step {
-                                if !ex.panicked {
+                                // async try macros may return the failure of a sibling that fails in the same (or an earlier) step
+                                // before the panicking branch reaches its panic (DESIGN §3.7): then no panic is owed
+                                let min_fail_step = row.iter().enumerate().filter(|(_, &x)| x == 1).map(|(i, _)| i % p.maxd).min();
+                                let early_failure_allowed =
+                                    min_fail_step.map(|f| f <= k).unwrap_or(false) && ex.value.as_deref().map(|v| v.starts_with("Err(") || v.starts_with("None")).unwrap_or(false);
+                                if !ex.panicked && early_failure_allowed {
+                                    // fine
+                                } else if !ex.panicked {
                                     msg = Some(format!("a panic was injected in step {} but polling the macro's future never panicked (value {:?})", k, ex.value));
                                 } else if let Some(e) = ex.log.iter().find(|e| step_of(e).map(|s| s > k && s < 90).unwrap_or(false)) {
                                     msg = Some(format!("event {} of a later step ran although a panic was injected in step {}", e, k));
